@@ -5,7 +5,8 @@
    `<T as Type>::TYPE`, create_dynamic_sample and create_sample on every check.
    Property file: statements, `exact`, pins, assumptions. *)
 From Coq Require Import Strings.String.
-From DustDDS Require Import Base.Machine Lang.DeriveModel Lang.DeriveDescProofs Lang.DeriveRtProofs.
+From DustDDS Require Import Base.Machine Lang.DeriveModel Lang.DeriveCorr Lang.DeriveDescProofs
+  Lang.DeriveRtProofs Lang.DeriveOracleProofs.
 Open Scope Z_scope.
 
 (* ------------------------------------------------------------ round trip *)
@@ -142,6 +143,39 @@ Theorem C40_enum_literals_not_reflected :
   exists e1 e2, enum_discs e1 <> enum_discs e2 /\ describe (TEnum e1) = describe (TEnum e2).
 Proof. exact enum_literals_refuted. Qed.
 
+(* ------------------------------------- the correspondence oracle and the theorems *)
+
+(* Outside the recorded known-finding classes the oracle of the correspondence run
+   (Lang/DeriveCorr.v, written from the XTypes rules and the README, without using the
+   model) accepts what the model predicts; so an oracle rejection of the real code is
+   either one of the recorded classes or a disagreement between model and code. *)
+Theorem C40_oracle_sound_struct :
+  forall h ms d vs,
+    describe (TStruct h ms) = Some d -> wf_ty (TStruct h ms) = true ->
+    kn_explicit_id_ignored (TStruct h ms) = false -> kn_hash_unmasked (TStruct h ms) = false ->
+    kn_ns (TStruct h ms) = false -> existsb (fun m => has_vec_i8 (snd m)) ms = false ->
+    Forall (fun p => has_type (TStruct h ms) (fst p) = true) vs ->
+    C40_oracle_ok (model_case (TStruct h ms) d vs) = true.
+Proof. exact oracle_sound_struct. Qed.
+
+Theorem C40_oracle_sound_union :
+  forall h vs d rs,
+    describe (TUnion h vs) = Some d -> wf_ty (TUnion h vs) = true ->
+    kn_ns (TUnion h vs) = false ->
+    existsb (fun v => match snd v with Some t' => has_vec_i8 t' | None => false end) vs = false ->
+    forallb (fun v => forallb in_i32b (v_cases (fst v))) vs = true ->
+    Forall (fun p => has_type (TUnion h vs) (fst p) = true) rs ->
+    C40_oracle_ok (model_case (TUnion h vs) d rs) = true.
+Proof. exact oracle_sound_union. Qed.
+
+(* enumerations with literals: rejected, and only for the recorded reason (class 4) *)
+Theorem C40_oracle_rejects_enum_literals :
+  forall e d vs,
+    describe (TEnum e) = Some d -> wf_ty (TEnum e) = true -> e_variants e <> [] ->
+    Forall (fun p => has_type (TEnum e) (fst p) = true) vs ->
+    C40_oracle_ok (model_case (TEnum e) d vs) = false /\ C40_known (model_case (TEnum e) d vs) = 4%N.
+Proof. exact oracle_rejects_enum_literals. Qed.
+
 (* non-vacuity: a nested declaration with every kind of member meets the hypotheses *)
 Example C40_example_wf :
   let inner := TStruct (mkS "In" None Mutable true false)
@@ -178,3 +212,6 @@ Print Assumptions C40_descriptor_determines_struct_attributes.
 Print Assumptions C40_descriptor_reflects_union.
 Print Assumptions C40_descriptor_reflects_enum.
 Print Assumptions C40_enum_literals_not_reflected.
+Print Assumptions C40_oracle_sound_struct.
+Print Assumptions C40_oracle_sound_union.
+Print Assumptions C40_oracle_rejects_enum_literals.
